@@ -119,7 +119,7 @@ type rawBlock struct {
 var rawClasses = map[string][]string{
 	"tiny": {"empty", "b1", "smallC", "smallI"},
 	"mid":  {"smallC", "k4C", "k4I", "smallI"},
-	"big":  {"k64C", "k64I", "k4C", "k300M", "k64C"},
+	"big":  {"k64C", "k64I", "k4C", "k64C"},
 }
 
 // RawOf generates a raw block deterministically from (seed, id, class).
